@@ -23,7 +23,7 @@ Record cfg := mkCfg {
 Definition pinned : cfg := mkCfg false false false false false.
 Definition fixed : cfg := mkCfg true true true true true.
 (* the code that exists in /repo now *)
-Definition current : cfg := pinned.
+Definition current : cfg := fixed.
 
 Definition trie_lookup (c : cfg) := trie_lookup_gen (fix_trie_first c).
 
@@ -176,11 +176,6 @@ Definition spec_step (s : spec) (o : op) : spec :=
 Definition spec_run (s : spec) (ops : list op) : spec := fold_left spec_step ops s.
 
 (* abstraction of a trie / of a TrieBuf: its entries as a map *)
-Definition trie_get (t : trie) (x : pkey) : option sval :=
-  match find (fun ph => seq_eqb (ph_text ph) (snd x)) (trie_leaf t (fst x)) with
-  | Some ph => Some (ph_freq ph, ph_time ph)
-  | None => None
-  end.
 Definition tb_get (tb : triebuf) (x : pkey) : option sval :=
   if gr_mem x (tb_grave tb) then None
   else match bt_find x (tb_btree tb) with
